@@ -1,4 +1,4 @@
-import Hive.Model.Ads
+import Hive.Model.AdsRealm
 import Hive.Model.AdsTrieLine
 import Hive.Model.AdsConc
 open Hive.Ads
